@@ -56,7 +56,9 @@ func (c *ClusterNode) internalRoute(remoteFn string, args Destinationer, reply a
 	}()
 	// ---------------------------
 	var retryErr error
-	for i := 0; i < c.cfg.RpcRetries; i++ {
+	// At least one attempt: without any the call would report success with an
+	// empty reply although nothing was sent.
+	for i := 0; i < max(1, c.cfg.RpcRetries); i++ {
 		// ---------------------------
 		if i > 0 {
 			// Exponential backoff and minimum 2 second delay, so we start 2
